@@ -126,7 +126,7 @@ def main():
                      "kind_free_text": "TLA+ specifications in /verif/spec checked by TLC (design, exhaustive), used as schedule generator (state-graph edge cover, -simulate) and as trace validator for executions of the real code recorded by /verif/harness"}],
         "checks": checks,
         "not_applicable": na,
-        "notes": "Exit 0/1/2 = held / violation (VIOLATION lines with replay files) / machinery failure. known_findings.json lists recorded genuine defects; seeded/ holds independently written breaking changes used to test the checks.",
+        "notes": "Exit 0/1/2 = held / violation (VIOLATION lines with replay files) / machinery failure. known_findings.json lists recorded genuine defects; seeded/ holds independently written breaking changes used to test the checks. A TLC run that ends in an error of the run itself (not a verdict) is repeated, once unchanged and once with one worker, before it counts as a machinery failure (TLC-RETRY lines, coverage.tlc_runs_repeated in the evidence); verdicts are never repeated.",
     }
     json.dump(m, open(os.path.join(HERE, "MANIFEST.json"), "w"), indent=1)
     try:
